@@ -16,6 +16,10 @@ QOpts == {o \in [lg : {"year", "month", "week", "day", "hour"}, sm : {"year", "m
             /\ UnitLe(o.sm, o.lg) /\ (o.sm = "hour" => o.inc \in {1, 2}) /\ (o.sm = "nanosecond" => o.inc \in {1, 5})}
 TOpts == {o \in [lg : DateUnits \cup {"hour", "minute"}, sm : DateUnits \cup {"hour", "minute", "nanosecond"}, inc : {1, 2, 3, 5, 7}, mode : Modes] :
             /\ UnitLe(o.sm, o.lg) /\ (o.sm = "hour" => o.inc \in {1, 2, 3}) /\ (o.sm = "minute" => o.inc \in {1, 2, 3, 5}) /\ (o.sm = "nanosecond" => o.inc \in {1, 5})}
+\* C04: PlainDate.until / since with rounding options only (one trivial duration; date-unit options with more increments and all modes)
+C04Rels == QRels \cup {Date(2021, 2, 28), Date(2020, 3, 31), Date(2019, 3, 1)}
+C04Durs == {Dm(0, 0, 0, 0, 0, 0, 0, 0)}
+C04Opts == {o \in [lg : DateUnits, sm : DateUnits, inc : {1, 2, 3, 7}, mode : Modes] : UnitLe(o.sm, o.lg)}
 AllTotalUnits == {"year", "month", "week", "day", "hour", "second", "nanosecond"}
 NoOpts == {}
 NoUnits == {}
@@ -31,11 +35,16 @@ Carried == IF last.op = "round" /\ last.out.kind = "ok" THEN
            ELSE "-"
 Cls == CASE last.op = "round" -> "sm-" \o O.sm \o "/lg-" \o O.lg \o "/" \o Carried \o (IF last.rel.d > 28 THEN "/eom" ELSE "/mid") \o (IF Sg < 0 THEN "/neg" ELSE "/pos")
          [] last.op = "total" -> last.u \o (IF last.rel.d > 28 THEN "/eom" ELSE "/mid") \o (IF Sg < 0 THEN "/neg" ELSE "/pos")
+         [] last.op = "datediff" -> (IF last.since THEN "since" ELSE "until") \o (IF last.bare THEN "/no-units" ELSE "") \o "/sm-" \o last.o.sm \o "/lg-" \o last.o.lg \o (IF last.rel.d > 28 THEN "/eom" ELSE "/mid")
          [] last.op = "compare" -> (IF HasCalendarUnits(last.dur) \/ HasCalendarUnits(last.b) THEN "calendar" ELSE "days-time")
 CaseOf ==
   CASE last.op = "round" -> [op |-> "Duration.round", cls |-> Cls, args |-> [recv |-> last.dur, rel |-> last.rel, st |-> [largest |-> O.lg, smallest |-> O.sm, inc |-> O.inc, mode |-> O.mode]], out |-> last.out]
     [] last.op = "total" -> [op |-> "Duration.total", cls |-> Cls, args |-> [recv |-> last.dur, rel |-> last.rel, unit |-> last.u],
                              out |-> IF last.out.kind = "ok" THEN [kind |-> "ratio", n |-> last.out.val.n, d |-> last.out.val.d] ELSE last.out]
+    [] last.op = "datediff" -> [op |-> IF last.since THEN "PlainDate.since" ELSE "PlainDate.until", cls |-> Cls,
+                                args |-> [recv |-> last.rel, other |-> last.b,
+                                          st |-> IF last.bare THEN [inc |-> last.o.inc, mode |-> last.o.mode] ELSE [largest |-> last.o.lg, smallest |-> last.o.sm, inc |-> last.o.inc, mode |-> last.o.mode]],
+                                out |-> last.out]
     [] last.op = "compare" -> [op |-> "Duration.compare", cls |-> Cls, args |-> [recv |-> last.dur, other |-> last.b, rel |-> last.rel], out |-> last.out]
 Emit == last.op = "none" \/ PrintT("CASE " \o ToJson(CaseOf))
 =============================================================================
